@@ -238,6 +238,8 @@ def cells(tier):
                         continue  # measured: > 900 s per cell (every pull forks on two random indices)
                     if shuffled and layout == "four-shards" and iface == "concurrent":
                         continue  # measured: 700 s alone (44 000 paths)
+                    if shuffled and layout == "nested" and iface in ("concurrent", "async"):
+                        continue  # measured: 780 s (async, 63 000 paths) and > 1500 s (concurrent) alone
                     out.append(dict(iface=iface, layout=layout, repeat=repeat, shuffled=shuffled))
     out.append(dict(real_pool=1, Ts=[1, 2, 3] if tier == "quick" else [1, 2, 3, 5, 8]))
     return out
